@@ -1,9 +1,10 @@
 ------------------------------- MODULE MC_C15 -------------------------------
 (***************************************************************************)
 (* Scheduler model for concurrent sessions: NC connections, connection c   *)
-(* sending a fixed sequence of messages; a message is either plain ("m":   *)
-(* the harness waits until the server has reacted) or gated ("g": its       *)
-(* statement function parks at a gate inside the handler until released).   *)
+(* sending a fixed sequence of messages; a message is either plain ("m",    *)
+(* "x": the harness waits until the server has reacted) or held ("g": its    *)
+(* statement function parks at a gate; "e": the connection is held between   *)
+(* encoding a row value and writing it) until released.                      *)
 (* Every interleaving of sends and releases is exported as a schedule; the  *)
 (* harness fills in concrete sessions that deliberately use the same        *)
 (* statement and portal names on every connection.                          *)
@@ -15,15 +16,18 @@ CONSTANTS NC, Plans   \* Plans: set of per-connection message-kind sequences
 VARIABLES plan, sent, parked, hist
 mvars == <<plan, sent, parked, hist>>
 
-PlansQuick == {<<"m", "g", "m">>, <<"g", "m">>}
-PlansThorough == {<<"m", "g", "m">>, <<"g", "m", "g">>, <<"m", "m">>}
+\* "m": a Parse/Bind/Execute/Sync group; "g": a query whose statement function parks at a gate;
+\* "e": a query whose connection is held right after a row value was encoded; "x": a query with a
+\* row that cannot be encoded
+PlansQuick == {<<"m", "g", "m">>, <<"x", "e", "m">>, <<"e", "m">>}
+PlansThorough == {<<"m", "g", "m">>, <<"g", "m", "e">>, <<"x", "e", "m">>, <<"m", "x">>}
 
 C == 1..NC
 MCInit == /\ plan \in [C -> Plans] /\ sent = [c \in C |-> 0] /\ parked = [c \in C |-> FALSE] /\ hist = <<>>
 
 Send(c) == /\ ~parked[c] /\ sent[c] < Len(plan[c])
            /\ sent' = [sent EXCEPT ![c] = @ + 1]
-           /\ parked' = [parked EXCEPT ![c] = (plan[c][sent[c] + 1] = "g")]
+           /\ parked' = [parked EXCEPT ![c] = (plan[c][sent[c] + 1] \in {"g", "e"})]
            /\ hist' = Append(hist, [c |-> c, act |-> "send"])
            /\ UNCHANGED plan
 Release(c) == /\ parked[c]
